@@ -413,6 +413,42 @@ where
 }
 
 // ------------------------------------------------------------------------------------------
+// a make-service that is not ready the first time it is asked
+
+/// A make-service behind a limit or with lazy set-up: before every connection its `poll_ready`
+/// answers Pending once (waking the task), Ready the next time. An accept loop must ask - and
+/// wait - before it takes a connection off the listener, or hold on to the connection while it
+/// waits.
+#[derive(Clone)]
+pub struct LazyMake<M> {
+    pub inner: M,
+    pub asked: bool,
+}
+
+impl<'t, M, T> tower::Service<&'t T> for LazyMake<M>
+where
+    M: tower::Service<&'t T>,
+{
+    type Response = M::Response;
+    type Error = M::Error;
+    type Future = M::Future;
+
+    fn poll_ready(&mut self, cx: &mut Context<'_>) -> Poll<Result<(), Self::Error>> {
+        if !self.asked {
+            self.asked = true;
+            cx.waker().wake_by_ref();
+            return Poll::Pending;
+        }
+        self.inner.poll_ready(cx)
+    }
+
+    fn call(&mut self, target: &'t T) -> Self::Future {
+        self.asked = false;
+        self.inner.call(target)
+    }
+}
+
+// ------------------------------------------------------------------------------------------
 // a per-connection service that insists on tower's readiness contract
 
 /// Like tower's ConcurrencyLimit / Buffer / RateLimit: every clone must be driven to readiness
@@ -748,6 +784,7 @@ pub async fn run_server_opts(
             Ok::<_, Infallible>(NeedsReady { inner: tower::service_fn(move |req: http::Request<hyperdriver::Body>| handle(ctx.clone(), conn, req)), ready: false, warmed: false, log })
         }
     });
+    let make = LazyMake { inner: make, asked: false };
     let signal = async move {
         match shutdown {
             Some(rx) => {
